@@ -657,7 +657,7 @@ func (w *world) start(l int, kind string) *call {
 		}
 		cl.ctx, cl.cancel = ctx, cancel
 		if a == nil {
-			w.fail("harness", "harness: a lock call succeeded without any script")
+			w.fail("held-without-keys", "a lock call returned a lock context although none of its acquire scripts ever reached the server")
 			return
 		}
 		cl.att = a
